@@ -46,6 +46,18 @@ func newEnc(w *World, f *ssa.Function, info *passInfo, opts *EncOpts) *enc {
 	e.rec = &passInfo{arrays: map[string]string{}, writes: map[ssa.Instruction][]string{}}
 	e.fc = w.CS.Funcs[e.key]
 	e.countKeys = map[string]bool{}
+	e.callResults = map[string]cval{}
+	e.callResultTypes = map[string]types.Type{}
+	// result types of all callees (for callresult() on paths that have not made the call)
+	for _, b := range f.Blocks {
+		for _, ins := range b.Instrs {
+			if c, ok := ins.(*ssa.Call); ok {
+				if k := e.callKeyOf(&c.Call); k != "" {
+					e.callResultTypes[k] = c.Type()
+				}
+			}
+		}
+	}
 	if e.fc != nil {
 		for _, m := range ncallsRe.FindAllStringSubmatch(contractText(e.fc), -1) {
 			e.countKeys[m[1]] = true
@@ -495,6 +507,7 @@ func (e *enc) entryAssumptions() {
 		e.entry["G_n:"+k] = e.heap["G_n:"+k]
 		e.assume(fmt.Sprintf("(= %s 0)", e.hnameIn("G_n:"+k, e.entry)))
 	}
+	e.assumeIfaceRequires()
 	if e.fc == nil {
 		return
 	}
@@ -823,4 +836,73 @@ func (e *enc) finish() {
 			e.assumptions["definitional axiom "+ax.Label] = true
 		}
 	}
+}
+
+// assumeIfaceRequires: a method that implements an interface method under contract is entered, through
+// that interface, only with the interface contract's preconditions established (they are checked at every
+// invoke site); static callers are checked against the method's own contract.
+func (e *enc) assumeIfaceRequires() {
+	f := e.f
+	if f.Signature.Recv() == nil || len(e.w.CS.Ifaces) == 0 {
+		return
+	}
+	rt := f.Signature.Recv().Type()
+	for key, fc := range e.w.CS.Ifaces {
+		parts := strings.Split(key, ".")
+		if len(parts) != 3 || parts[2] != f.Name() || len(fc.Requires) == 0 {
+			continue
+		}
+		p := e.w.TPkgs[parts[0]]
+		if p == nil {
+			continue
+		}
+		tn, ok := p.Scope().Lookup(parts[1]).(*types.TypeName)
+		if !ok {
+			continue
+		}
+		iface, ok := tn.Type().Underlying().(*types.Interface)
+		if !ok || !types.Implements(rt, iface) {
+			continue
+		}
+		var m *types.Func
+		for i := 0; i < iface.NumMethods(); i++ {
+			if iface.Method(i).Name() == f.Name() {
+				m = iface.Method(i)
+			}
+		}
+		if m == nil {
+			continue
+		}
+		sig := m.Type().(*types.Signature)
+		env := e.newEnv()
+		env.pkg = fc.Pkg
+		env.st, env.old = e.entry, e.entry
+		env.vars["this"] = cval{e.val(f.Params[0]), e.sortOf(f.Params[0].Type()), f.Params[0].Type()}
+		for i := 0; i < sig.Params().Len() && i+1 < len(f.Params); i++ {
+			cv := cval{e.val(f.Params[i+1]), e.sortOf(f.Params[i+1].Type()), f.Params[i+1].Type()}
+			if n := sig.Params().At(i).Name(); n != "" && n != "_" {
+				env.vars[n] = cv
+			}
+			env.vars[fmt.Sprintf("arg%d", i)] = cv
+		}
+		for _, c := range fc.Requires {
+			t, err := env.boolTerm(c.Expr)
+			if err != nil {
+				e.contractError(c, err)
+				continue
+			}
+			e.assume(t)
+		}
+		fc.Used = true
+	}
+}
+
+func (e *enc) callKeyOf(cc *ssa.CallCommon) string {
+	if cc.IsInvoke() {
+		return e.ifaceKey(cc)
+	}
+	if callee := cc.StaticCallee(); callee != nil {
+		return funcKey(callee)
+	}
+	return ""
 }
